@@ -179,6 +179,85 @@ def rule_r1(chk, db, model, enc):
     return tables
 
 
+def _refuses_when_some(body, bi):
+    """the `is_some()` call in block bi leads, when true, to Err(DuplicateField) before anything else is written"""
+    from .sigcore import first_writes_from
+    o = flow.outcomes_of_call(body, bi)
+    tr = o.get("true")
+    fw = first_writes_from(body, tr) if tr else []
+    for w in fw:
+        if w["kind"] == "Err":
+            sl = flow.backward(body, w["rv"]["ops"][0], at=w["bi"])
+            if any(rv.get("variant") == "DuplicateField" for _, rv in sl.aggs):
+                return True
+        elif w["kind"] == "residual" and w["term"]["args"]:
+            sl = flow.backward(body, w["term"]["args"][0], at=w["bi"])
+            if any(rv.get("variant") == "DuplicateField" for _, rv in sl.aggs):
+                return True
+    return False
+
+
+def _slot_helper(db, clo, t):
+    """(captured slot index, helper body, reader operand) when `t` calls a workspace helper with `&mut <captured Option slot>` and a reader
+    (function item or closure)"""
+    hb = db.bodies.get(t["callee"].get("resolved") or "") or db.bodies.get(callee_def(t))
+    if hb is None or hb.crate != "s3s" or len(t["args"]) < 3:
+        return None
+    slot = None
+    reader = None
+    for a in t["args"][1:]:
+        if isinstance(a, dict) and a.get("c") == "fn":
+            reader = a
+            continue
+        pl = flow.op_place(a)
+        if pl is None:
+            continue
+        ty = clo.locals[pl["l"]] if pl["l"] < len(clo.locals) else ""
+        if ty.startswith("&mut core::option::Option<"):
+            r = flow.resolve_place(clo, a)
+            if r is not None and r[0] == 1:
+                fidx = [e[1] for e in r[1] if e[0] == "f"]
+                if fidx:
+                    slot = fidx[0]
+        elif "{closure" in ty or "closure@" in ty:
+            reader = a
+    if slot is None or reader is None:
+        return None
+    return slot, hb, reader
+
+
+_SLOT_SUMMARY = {}
+
+
+def _slot_helper_summary(db, hb):
+    """guards: the helper refuses (DuplicateField) when the slot is already filled, before it runs the reader; fills: the slot receives
+    Some(<what the reader returned>)"""
+    key = (db.dir, hb.name)
+    if key in _SLOT_SUMMARY:
+        return _SLOT_SUMMARY[key]
+    slot_l = [l for l in range(1, hb.argc + 1) if hb.locals[l].startswith("&mut core::option::Option<")]
+    runs = [bi for bi, t in hb.calls() if short(callee_def(t)) in ("call_once", "call_mut", "call")]
+    guards_ = False
+    fills = False
+    if len(slot_l) == 1 and runs:
+        for bi, t in hb.calls():
+            if callee_def(t) == "core::option::Option::<T>::is_some" and t["args"]:
+                r = flow.resolve_place(hb, t["args"][0])
+                if r is not None and r[0] == slot_l[0] and _refuses_when_some(hb, bi):
+                    o = flow.outcomes_of_call(hb, bi)
+                    if flow.must_pass(hb, runs, o.get("false")):
+                        guards_ = True
+        for bi, si, st in hb.stmts():
+            if st["dst"]["l"] == slot_l[0] and st["dst"]["proj"] == ["*"] and st["rv"].get("ops"):
+                some = st["rv"]["k"] == "agg" and st["rv"].get("variant") == "Some"
+                sl = flow.backward(hb, st["rv"]["ops"][0], at=bi)
+                some = some or any(rv.get("variant") == "Some" and (rv.get("adt") or "").startswith("core::option::Option") for _, rv in sl.aggs)
+                if some and any(cb in runs for cb, _, _ in sl.calls):
+                    fills = True
+    _SLOT_SUMMARY[key] = {"guards": guards_, "fills": fills}
+    return _SLOT_SUMMARY[key]
+
+
 def decoder_arms(db, b, tname):
     """arms of the tag match in the closure given to for_each_element: list of dicts; plus default-arm info"""
     clos = [c for c in b.children]
@@ -244,22 +323,36 @@ def decoder_arms(db, b, tname):
                         fidx = [e[1] for e in r[1] if e[0] == "f"]
                         if fidx:
                             assigned.add(upnames.get(fidx[0], fidx[0]))
-                if dd == "core::option::Option::<T>::is_some":
-                    o = flow.outcomes_of_call(clo, x)
-                    tr = o.get("true")
-                    fw = []
-                    if tr:
-                        from .sigcore import first_writes_from
-                        fw = first_writes_from(clo, tr)
-                    for w in fw:
-                        if w["kind"] == "Err":
-                            sl = flow.backward(clo, w["rv"]["ops"][0], at=w["bi"])
-                            if any(rv.get("variant") == "DuplicateField" for _, rv in sl.aggs):
-                                dup_guard = True
-                        elif w["kind"] == "residual" and w["term"]["args"]:
-                            sl = flow.backward(clo, w["term"]["args"][0], at=w["bi"])
-                            if any(rv.get("variant") == "DuplicateField" for _, rv in sl.aggs):
-                                dup_guard = True
+                if dd == "core::option::Option::<T>::is_some" and _refuses_when_some(clo, x):
+                    dup_guard = True
+                # a slot helper of the decoder (`d.single(&mut slot, Deserializer::content)` / `d.single(&mut slot, |d| d.timestamp(fmt))`):
+                # the helper guards and fills the slot, the reader is the function or closure it is given
+                sh = _slot_helper(db, clo, t)
+                if sh is not None:
+                    fidx, hb, rd_op = sh
+                    assigned.add(upnames.get(fidx, fidx))
+                    summ = _slot_helper_summary(db, hb)
+                    if summ["guards"]:
+                        dup_guard = True
+                    if summ["fills"]:
+                        if rd_op.get("c") == "fn" and rd_op.get("def", "").startswith(DE + "Deserializer"):
+                            readers.append((short(rd_op["def"]), [], None, []))
+                        else:
+                            ag = flow.resolve_agg(clo, rd_op) if "p" in rd_op else None
+                            cdef = None
+                            pl = flow.op_place(rd_op)
+                            if pl is not None:
+                                df0 = flow.single_def(clo, pl["l"])
+                                if df0 is not None and df0["kind"] == "assign" and df0["rv"]["k"] == "agg" and df0["rv"].get("agg") == "closure":
+                                    cdef = df0["rv"].get("def")
+                            cb = db.body(cdef) if cdef else None
+                            for x2 in (db.nested(cb) if cb is not None else []):
+                                for _, t3 in x2.calls():
+                                    d3 = callee_def(t3)
+                                    if d3.startswith(DE + "Deserializer"):
+                                        nm3 = short(d3)
+                                        fmt3 = common.enum_const_variant(x2, t3["args"][1]) if nm3 == "timestamp" and len(t3["args"]) > 1 else None
+                                        readers.append((nm3, paths.str_args(x2, t3), fmt3, common.generic_args(t3)))
         out.append({"lits": [l.decode("latin1") for l in lits], "assigned": sorted(map(str, assigned)), "readers": readers, "dup_guard": dup_guard, "flattened": flattened,
                     "leaf": leaf})
     # default arm
